@@ -7,7 +7,10 @@ from hypothesis import strategies as st
 from hypothesis.extra import numpy as hnp
 
 from skmatter.clustering import QuickShift
-from skmatter.clustering._quick_shift import _get_gabriel_graph
+try:
+    from skmatter.clustering._quick_shift import _get_gabriel_graph
+except ImportError:          # private helper: its absence is no violation (the graph is then judged through the labels only)
+    _get_gabriel_graph = None
 from vf import gen
 
 ID = "C16"
@@ -203,12 +206,21 @@ def check(case, ctx):
         cert, poss = gabriel3(D, gtol)
         Dm = np.array(D, copy=True)
         np.fill_diagonal(Dm, np.inf)
-        with ctx.lib("_get_gabriel_graph"):
+        G = None
+        try:
             # the graph on the distances the estimator itself computes
             from skmatter.metrics import periodic_pairwise_euclidean_distances as ppd
             Dlib = ppd(X, X, squared=True, cell_length=cell)
             np.fill_diagonal(Dlib, np.inf)
             G = np.asarray(_get_gabriel_graph(Dlib), bool)
+        except TypeError:
+            # the helper is private: a changed signature is no violation; the graph is then judged through the labels only
+            ctx.skip("gabriel: private helper not callable with a distance matrix")
+        except Exception as e:  # noqa: BLE001
+            from vf.core import innermost_frame
+            ctx.fail("exception:_get_gabriel_graph", "%s: %s @ %s" % (type(e).__name__, str(e)[:160], innermost_frame(e)))
+            return
+    if case["mode"] == "gabriel" and G is not None:
         ctx.true("gabriel:symmetric-no-loops", bool(np.array_equal(G, G.T)) and not G.diagonal().any(), "graph not symmetric / has loops")
         miss = cert & ~G
         extra = G & ~poss
